@@ -303,3 +303,203 @@ def limit_test(body, s, is_len, is_limit=None):
         # limit >= len (exact) | limit > len (rejects len == limit)
         return dict(accept=true_t, reject=false_t, exact=(o[1] == 'Ge'), len=b_, limit=a, op=o[1] + '-swapped')
     return None
+
+
+# ---------------------------------------------------------------- byte layout of writes into a slice (message prefix)
+def slice_region(term):
+    """(root term, start, end|None) of a sub-slice expression built from constant ranges / split_at_mut of a root slice"""
+    t = strip_refs(mirlib.simplify(term))
+    if t is None or not t:
+        return None
+    if t[0] == 'arg' or t[0] == 'local':
+        return (t, 0, None)
+    if t[0] == 'cast':
+        return slice_region(t[2])
+    if is_call(t) and t[3] in ('index_mut', 'index') and len(t[2]) == 2:
+        base = slice_region(t[2][0])
+        rng = strip_refs(t[2][1])
+        if base is None or rng[0] != 'agg':
+            return None
+        root, s, e = base
+        adt = rng[1].get('adt', '')
+        vals = [const_val(x) for x in rng[2]]
+        if any(not isinstance(v, int) for v in vals):
+            return None
+        if adt.endswith('RangeTo'):
+            return (root, s, s + vals[0])
+        if adt.endswith('RangeFrom'):
+            return (root, s + vals[0], e)
+        if adt.endswith('RangeFull'):
+            return (root, s, e)
+        if adt.endswith('::Range'):
+            return (root, s + vals[0], s + vals[1])
+        if adt.endswith('RangeToInclusive'):
+            return (root, s, s + vals[0] + 1)
+        return None
+    if t[0] == 'field' and str(t[2]) in ('0', '1') and is_call(strip_refs(t[1]), name='split_at_mut'):
+        c = strip_refs(t[1])
+        base = slice_region(c[2][0])
+        k = const_val(c[2][1])
+        if base is None or not isinstance(k, int):
+            return None
+        root, s, e = base
+        return (root, s, s + k) if str(t[2]) == '0' else (root, s + k, e)
+    if is_call(t) and t[3] in ('deref_mut', 'deref', 'as_mut', 'as_mut_slice', 'borrow_mut') and t[2]:
+        return slice_region(t[2][0])
+    return None
+
+
+def _bytes_of(term):
+    """(width, endian, value) for x.to_be_bytes()/to_le_bytes() behind refs/unsize casts, else None"""
+    tb = [x for x in find_terms(term, lambda x: is_call(x) and x[3] in ('to_be_bytes', 'to_le_bytes', 'to_ne_bytes'))]
+    if not tb:
+        return None
+    ty = tb[0][4].get('fn') or ''
+    width = 4 if 'u32' in ty or 'i32' in ty else (8 if '64' in ty else (2 if '16' in ty else (1 if 'u8' in ty else None)))
+    return width, {'to_be_bytes': 'be', 'to_le_bytes': 'le', 'to_ne_bytes': 'ne'}[tb[0][3]], tb[0][2][0]
+
+
+PUT_WIDTH = {'put_u8': (1, 'be'), 'put_i8': (1, 'be'), 'put_u16': (2, 'be'), 'put_u32': (4, 'be'), 'put_u64': (8, 'be'),
+             'put_u16_le': (2, 'le'), 'put_u32_le': (4, 'le'), 'put_u64_le': (8, 'le'), 'put_u32_ne': (4, 'ne')}
+
+
+def prefix_layout(body):
+    """every write into a byte slice in `body`: list of dict(off, width, endian, value, bb, how, root) — cursor writes
+    (BufMut::put_*: consecutive offsets from the start of the cursor's slice, in dominance order), indexed stores
+    `s[i] = v` and `s.copy_from_slice(&x.to_be_bytes())`; off/width are None when not constant"""
+    out = []
+    cursors = {}
+    puts = body.calls(pat='BufMut::put_')
+    puts.sort(key=lambda x: len(body.dominators().get(x[0], ())))
+    for bb, t in puts:
+        dst = body.origin(t['args'][0])
+        reg = slice_region(dst)
+        key = show(reg[0]) + ':%s' % reg[1] if reg else show(dst)[:80]
+        start = reg[1] if reg else None
+        off = cursors.get(key, start)
+        nm = t.get('name')
+        v = body.origin(t['args'][1]) if len(t['args']) > 1 else ('x',)
+        if nm in PUT_WIDTH:
+            w, e = PUT_WIDTH[nm]
+        elif nm in ('put_slice', 'put'):
+            bo = _bytes_of(v)
+            w, e, v = bo if bo else (None, '?', v)
+        else:
+            w, e = None, '?'
+        out.append(dict(off=off, width=w, endian=e, value=v, bb=bb, how=nm, root=reg[0] if reg else None, end=reg[2] if reg else None))
+        cursors[key] = (off + w) if (off is not None and w is not None) else None
+    for bb, t in body.calls(name='copy_from_slice'):
+        reg = slice_region(body.origin(t['args'][0]))
+        bo = _bytes_of(body.origin(t['args'][1]))
+        w, e, v = bo if bo else (None, '?', body.origin(t['args'][1]))
+        out.append(dict(off=reg[1] if reg else None, width=w, endian=e, value=v, bb=bb, how='copy_from_slice', root=reg[0] if reg else None, end=reg[2] if reg else None))
+    for bb in sorted(body.live_blocks()):
+        for i, st in enumerate(body.blocks[bb]['stmts']):
+            pr = st.get('p', {}).get('pr') if 'p' in st else None
+            if not pr or not isinstance(pr[-1], dict) or not ('ix' in pr[-1] or 'ci' in pr[-1]):
+                continue
+            basety = body.ty(st['p']['l'])
+            if '[u8]' not in basety and 'u8;' not in basety:
+                continue
+            reg = slice_region(body.origin({'l': st['p']['l'], 'pr': pr[:-1]}) if len(pr) > 1 else body.origin(st['p']['l']))
+            if 'ix' in pr[-1]:
+                ix = const_val(body.origin(pr[-1]['ix']))
+            else:
+                ix = pr[-1]['ci'] if not pr[-1].get('end') else None
+            off = reg[1] + ix if (reg and isinstance(ix, int)) else None
+            out.append(dict(off=off, width=1, endian='be', value=body._origin_def(('stmt', bb, i, st['rv']), 0, set()), bb=bb, how='index-store', root=reg[0] if reg else None, end=reg[2] if reg else None))
+    out.sort(key=lambda d: (d['off'] is None, d['off'] or 0))
+    return out
+
+
+def bool_source(term):
+    """term is a 0/1 byte made from a bool: `b as u8` or `u8::from(b)`; returns the bool term or None"""
+    t = strip_refs(term)
+    if t and t[0] == 'cast' and t[1] == 'IntToInt':
+        return strip_refs(t[2])
+    if is_call(t, name='from') and len(t[2]) == 1 and 'bool' in str(t[4].get('ga')) + str(t[4].get('resolved')):
+        return strip_refs(t[2][0])
+    if is_call(t, name='into') and len(t[2]) == 1 and 'bool' in str(t[4].get('ga')):
+        return strip_refs(t[2][0])
+    return None
+
+
+def payload_len_source(term):
+    """strip lossless/checked conversions (as u32 after a range check, u32::try_from(..) Ok payload, unwrap) from a length value"""
+    t = strip_refs(mirlib.simplify(term))
+    for _ in range(8):
+        if t and t[0] == 'cast':
+            t = strip_refs(t[2]); continue
+        if t and t[0] == 'field' and t[1] and t[1][0] == 'variant' and t[1][2] in ('Ok', 'Some'):
+            t = strip_refs(t[1][1]); continue
+        if is_call(t) and t[3] in ('try_from', 'try_into', 'unwrap', 'expect', 'from', 'into') and t[2]:
+            t = strip_refs(t[2][0]); continue
+        break
+    return t
+
+
+# ---------------------------------------------------------------- parameters by type / role instead of position
+def params_of_type(body, pat):
+    """argument numbers (1-based) of body whose declared type matches regex pat"""
+    rx = re.compile(pat) if isinstance(pat, str) else pat
+    return [n for n in range(1, body.argc + 1) if rx.search(body.ty(n))]
+
+
+def param_of_type(body, pat):
+    r = params_of_type(body, pat)
+    if len(r) != 1:
+        raise CheckError('UNRECOGNISED: %d parameters of %s have a type matching %r' % (len(r), body.path, getattr(pat, 'pattern', pat)))
+    return r[0]
+
+
+def arg_root(term):
+    """the argument number a (possibly projected / reborrowed) term is rooted in, else None"""
+    t = term
+    for _ in range(40):
+        if not isinstance(t, tuple) or not t:
+            return None
+        if t[0] == 'arg':
+            return t[1]
+        if t[0] in ('ref', 'deref', 'field', 'variant', 'index'):
+            t = t[1]
+        elif t[0] == 'cast':
+            t = t[2]
+        elif is_call(t) and t[3] in ('deref', 'deref_mut', 'as_mut', 'as_ref', 'borrow', 'borrow_mut', 'as_pin_mut') and t[2]:
+            t = t[2][0]
+        else:
+            return None
+    return None
+
+
+def mentions_arg(term, n):
+    return term_contains(term, lambda x: isinstance(x, tuple) and x and x[0] == 'arg' and x[1] == n)
+
+
+def resolve_env(crate, body, term, depth=0):
+    """replace the captured variables of a closure/coroutine body (`env.<name>`) by what the parent stored in the capture
+    when it built the closure (so `let limit = self.config.x; move |..| f(limit)` is seen as f(self.config.x))"""
+    if depth > 3 or body.kind not in ('closure', 'coroutine') or not body.parent:
+        return term
+    if not term_contains(term, lambda x: isinstance(x, tuple) and len(x) == 3 and x[0] == 'field' and x[1] == ('env',)):
+        return term
+    try:
+        parent = crate.body(re.compile('^' + re.escape(body.parent) + '$'))
+    except CheckError:
+        return term
+    caps = {}
+    for bb, i, p, a, ops in mirlib.aggregates(parent):
+        if a.get('kind') in ('closure', 'coroutine', 'coroutine_closure') and a.get('def') == body.path:
+            for nm, op in zip(a.get('fields') or [], ops):
+                caps[nm] = resolve_env(crate, parent, parent.origin(op), depth + 1)
+    if not caps:
+        return term
+
+    def sub(t):
+        if isinstance(t, tuple):
+            if len(t) == 3 and t[0] == 'field' and t[1] == ('env',) and t[2] in caps:
+                return caps[t[2]]
+            return tuple(sub(x) for x in t)
+        if isinstance(t, list):
+            return [sub(x) for x in t]
+        return t
+    return sub(term)
